@@ -73,7 +73,10 @@ def spec_union_op(W, op, x, y):
 
 def sk_binop(tier):
     out = []
-    for p in sk_pairs(tier):
+    import os
+
+    # rank 5 only when C01 itself is checked thoroughly (20 370 jobs, ~13 min on 16 cores); C04/C13/C15 reuse rank <= 4
+    for p in sk_pairs(tier, 3, 5 if os.environ.get("FVC_PROP") == "C01" else 4):
         for op in list(INTERSECT_OPS) + list(UNION_OPS):
             out.append({"op": op, **p})
     return out
@@ -249,9 +252,16 @@ def naming(dims, style):
     return tuple(out)
 
 
+def _deep(tier, prop):
+    """rank bound of the C07 units: 5 in the thorough tier when C07 itself is checked"""
+    import os
+
+    return _rank(tier, 3, 5 if os.environ.get("FVC_PROP") == prop else 4)
+
+
 def sk_sum_to(tier):
     out = []
-    for k in range(_rank(tier, 3, 4) + 1):
+    for k in range(_deep(tier, "C07") + 1):
         x = ALPHA[:k]
         for K in ordered_subsets(x):
             for style in ("letter", "name", "object", "mixed"):
@@ -353,7 +363,7 @@ def u_sum_over(W, sk):
 def sk_cast(tier):
     # T = canonical letters (target), x = ordered selection from T (+ possibly a letter T lacks)
     out = []
-    for t, xs in operand_pairs(_rank(tier, 3, 4)):
+    for t, xs in operand_pairs(_deep(tier, "C07")):
         out.append({"T": t, "x": xs})
     return out
 
